@@ -144,6 +144,8 @@ pub struct Knobs {
     /// loops with an empty body that wait for an input (end only by the execution budget when it stays FALSE);
     /// never set by `swarm`: only a check that arms a budget for every cycle may enable it
     pub busy_wait: bool,
+    /// some program variables (same names in every program, other types) and globals are RETAIN / PERSISTENT
+    pub retain_block: bool,
 }
 
 impl Knobs {
@@ -160,12 +162,13 @@ impl Knobs {
             power: j["power"].as_bool().unwrap_or(false),
             temp_init: j["temp_init"].as_bool().unwrap_or(false),
             busy_wait: j["busy_wait"].as_bool().unwrap_or(false),
+            retain_block: j["retain_block"].as_bool().unwrap_or(false),
         }
     }
     pub fn to_json(&self) -> Json {
         json!({"boundary_pct": self.boundary_pct, "widening": self.widening, "case_exotic": self.case_exotic, "negation": self.negation,
                "for_extreme": self.for_extreme, "for_unsigned_down": self.for_unsigned_down, "max_depth": self.max_depth, "stmts_lo": self.stmts.0, "stmts_hi": self.stmts.1,
-               "power": self.power, "temp_init": self.temp_init, "busy_wait": self.busy_wait})
+               "power": self.power, "temp_init": self.temp_init, "busy_wait": self.busy_wait, "retain_block": self.retain_block})
     }
     pub fn swarm(r: &mut Rng) -> Knobs {
         Knobs {
@@ -180,6 +183,7 @@ impl Knobs {
             power: r.chance(1, 3),
             temp_init: r.chance(1, 3),
             busy_wait: false,
+            retain_block: r.chance(1, 2),
         }
     }
 }
@@ -745,6 +749,9 @@ pub fn gen_project(r: &mut Rng, knobs: Knobs, size: (usize, usize, usize)) -> Js
         config.push_str(&format!("  g_tab : ARRAY[{}..{}] OF LREAL;\n", g.r.range(-3, 0), g.r.range(1, 6)));
     }
     config.push_str("END_VAR\n");
+    if g.k.retain_block {
+        config.push_str("VAR_GLOBAL RETAIN\n  g_keep_l : LTIME := LTIME#7ms;\n  g_keep_i : INT := INT#3;\n  g_keep_w : WSTRING[8] := \"ab\";\nEND_VAR\n");
+    }
     let two_tasks = n_progs >= 2 && g.r.bool();
     let bg_two = g.r.bool();
     config.push_str("TASK TA (INTERVAL := T#10ms, PRIORITY := 1);\n");
@@ -755,7 +762,18 @@ pub fn gen_project(r: &mut Rng, knobs: Knobs, size: (usize, usize, usize)) -> Js
         let name = format!("Prog{pi}");
         let mut header = format!("PROGRAM {name}\nVAR_EXTERNAL\n  g_sel : DINT;\n  g_a : DINT;\n  g_b : INT;\n  g_f : BOOL;\nEND_VAR\nVAR\n");
         let (vars, text) = { let n_ = g.r.usize(3, 9); decl_vars(&mut g, "v", n_, true) };
-        header.push_str(&text);
+        if g.k.retain_block {
+            // the first variables go into a retentive block (v0.. exist in every program, with other types), together with
+            // two retained variables of types the expression grammar does not use
+            let n_keep = g.r.usize(1, 3).min(vars.len());
+            let lines: Vec<&str> = text.lines().collect();
+            let qual = if g.r.bool() { "RETAIN" } else { "PERSISTENT" };
+            header = header.replacen("END_VAR\nVAR\n", &format!("END_VAR\nVAR {qual}\n{}\n  rlt : LTIME := LTIME#5ms;\n  rdt : DATE := D#2024-02-29;\nEND_VAR\nVAR\n", lines[..n_keep].join("\n")), 1);
+            header.push_str(&lines[n_keep..].join("\n"));
+            header.push('\n');
+        } else {
+            header.push_str(&text);
+        }
         let mut sc = Scope { vars, ..Scope::default() };
         for g_ in [("g_a", Ty::DInt), ("g_b", Ty::Int), ("g_f", Ty::Bool)] {
             sc.vars.push(Var { name: g_.0.into(), ty: g_.1 });
